@@ -33,6 +33,7 @@ type Config struct {
 	FunctionVersion string
 	AccountID    string
 	AwsKey, AwsSecret, AwsSession string
+	CredsExpiry  time.Time // expiry of the credentials handed over at init
 	BootstrapCmd []string
 	BootstrapErr error // Cmd() fails with this
 	Port         int   // 0 = pick from the allocator
@@ -240,6 +241,7 @@ func (e *Emu) InitParams() *interop.Init {
 		AwsKey:                       cfg.AwsKey,
 		AwsSecret:                    cfg.AwsSecret,
 		AwsSession:                   cfg.AwsSession,
+		CredentialsExpiry:            cfg.CredsExpiry,
 		XRayDaemonAddress:            "0.0.0.0:0",
 		FunctionName:                 cfg.FunctionName,
 		FunctionVersion:              cfg.FunctionVersion,
